@@ -512,7 +512,7 @@ static int run_random (long runs, unsigned seed, const char *init, const char *v
 			const struct rt_viol *v = rt_first_violation ();
 			char path[512] = "-";
 			viols++;
-			if (violdir && viols <= 5) {
+			if (violdir && rt_should_save (v->oracle)) {
 				FILE *o;
 				snprintf (path, sizeof path, "%s/%s_r%u_%ld.sched", violdir, prop, seed, viols);
 				o = fopen (path, "w");
